@@ -77,13 +77,15 @@ let () = iter_lines (fun line ->
   | [ "xicc"; src; inst; save; cn; getb; _; _ ] ->
       let x = { x_save = z_of_int (int_of_string save); x_copynone = (cn = "1"); x_src = z_of_int (int_of_string src);
                 x_inst = z_of_int (int_of_string inst); x_got = (getb = "1") } in
-      Printf.printf "xicc term=%d written=%d\n" (int_of_z (size_term x)) (int_of_z (icc_written x))
+      let kk = z_of_int ((int_of_string src + 65518) / 65519) in      (* chunks of a profile written by jpeg_write_icc_profile *)
+      Printf.printf "xicc term=%d written=%d\n" (int_of_z (size_term_bytes x kk)) (int_of_z (icc_written x))
   | [ "xmk"; kind; k; payload; save; cn; _; _ ] ->
       let isicc = kind = "0" in
       let x = { x_save = z_of_int (int_of_string save); x_copynone = (cn = "1");
                 x_src = z_of_int (if isicc then int_of_string payload else 0); x_inst = z_of_int 0; x_got = false } in
-      Printf.printf "xmk term=%d iccbytes=%d budget=%d\n" (int_of_z (size_term x))
-        (int_of_z (icc_bytes_written x (z_of_int (if isicc then int_of_string k else 0)))) (int_of_z (marker_budget x))
+      let kk = z_of_int (if isicc then int_of_string k else 0) in
+      Printf.printf "xmk term=%d iccbytes=%d budget=%d\n" (int_of_z (size_term_bytes x kk))
+        (int_of_z (icc_bytes_written x kk)) (int_of_z (marker_budget x))
   | [ "chunkmax"; prec ] -> Printf.printf "chunkmax %d\n" (int_of_z (chunk_max (z_of_int (int_of_string prec))))
   | "blk" :: px ->
       let px = zl (List.map int_of_string px) in
